@@ -142,7 +142,25 @@ func (c *runCtx) simConfig() zsim.Config {
 		cfg.StallPermil = []int{1, 4, 12, 30}[r.Intn(4)]
 	}
 	if c.replay != nil && c.replay.Tape != nil {
-		cfg.Replay = c.replay.Tape
+		// the k-th simulation of the evaluation replays the k-th segment of the recorded tape
+		seg, k := []uint32{}, 0
+		for _, v := range c.replay.Tape {
+			if v == zsim.TapeSep {
+				if k == len(zsim.Created) {
+					break
+				}
+				k++
+				seg = seg[:0]
+				continue
+			}
+			if k == len(zsim.Created) {
+				seg = append(seg, v)
+			}
+		}
+		if k < len(zsim.Created) {
+			seg = []uint32{}
+		}
+		cfg.Replay = seg
 	}
 	if c.passThrough {
 		cfg.PassThrough = true
@@ -205,6 +223,7 @@ func TestVerifWorker(t *testing.T) {
 		c := &runCtx{t: t, seed: seed, rng: zsim.NewRng(zsim.Mix(seed, 11)), schedSeed: zsim.Mix(seed, 22),
 			replay: j.Replay, params: j.Params, tier: j.Tier, counters: map[string]int{}, prop: j.Property}
 		res := &runResult{T: "done", Seed: seed, Index: i}
+		zsim.Created = nil
 		runOne(sc, c, res)
 		res.Viol = c.viol
 		res.Counters = c.counters
@@ -213,7 +232,14 @@ func TestVerifWorker(t *testing.T) {
 		if c.sim != nil {
 			if !c.sim.PassThrough() {
 				// pass-through (-race) runs have no schedule trace: they are told apart by their plan (state)
-				res.Hash = fmt.Sprintf("%016x", c.sim.Hash())
+				h := c.sim.Hash()
+				if len(zsim.Created) > 1 {
+					h = 0
+					for _, sm := range zsim.Created {
+						h = zsim.Mix(h, sm.Hash())
+					}
+				}
+				res.Hash = fmt.Sprintf("%016x", h)
 			}
 			res.Steps = c.sim.Stats.Steps
 			res.Preempt = c.sim.Stats.Preemptions
@@ -230,7 +256,16 @@ func TestVerifWorker(t *testing.T) {
 				res.Plan, _ = json.Marshal(c.plan)
 			}
 			if c.sim != nil {
-				res.Tape = c.sim.Tape()
+				res.Tape = nil
+				for k, sm := range zsim.Created {
+					if k > 0 {
+						res.Tape = append(res.Tape, zsim.TapeSep)
+					}
+					res.Tape = append(res.Tape, sm.Tape()...)
+				}
+				if res.Tape == nil {
+					res.Tape = c.sim.Tape()
+				}
 				res.Trace = c.sim.Trace()
 				res.History = c.sim.History()
 			}
